@@ -85,3 +85,25 @@ def inventory(program) -> dict[str, list[str]]:
     """{'spec': [...], 'tunable': [...]} keys found in today's source (for the evidence file)."""
     keys = sorted(set(index(program).values()))
     return {"spec": [k for k in keys if k in SPEC_CONSTANTS], "tunable": [k for k in keys if k not in SPEC_CONSTANTS]}
+
+
+def scaled_or_plain(run_once, prog, job: dict, raises) -> dict:
+    """Run a job; for a scaled job fall back to the unscaled run when scaling makes the analysed code RAISE something
+    the unscaled run does not raise: such a literal is a validation bound, not a tunable, and a job that trips it says
+    nothing about the property (no verdict rather than an alarm).  ``raises(result) -> set`` extracts the exceptions
+    seen in a result."""
+    res = run_once(prog, job)
+    if not job.get("tunable_scale"):
+        return res
+    seen = raises(res)
+    if not seen:
+        return res
+    plain_job = {k: v for k, v in job.items() if k != "tunable_scale"}
+    plain = run_once(prog, plain_job)
+    if seen <= raises(plain):
+        return res
+    plain["job"] = dict(plain["job"], tunable_scale=None, tunable_scale_dropped=sorted(map(str, seen - raises(plain))))
+    for k in ("name",):
+        if k in job and k in plain["job"]:
+            plain["job"][k] = job[k]
+    return plain
